@@ -171,12 +171,35 @@ def compare_pos(cres, sres, pos, out_shape, opname=""):
     return None
 
 
+SCALES = [1, 2000, 0.001, -3, 1500, -0.5]
+SCALABLE = ("point2", "line2", "point3", "plane3", "line3", "quadric2", "trafo2")
+
+
+def _rescaled(x, f):
+    if f == 1:
+        return x
+    y = x.copy()
+    y.array = np.asarray(x.array) * f
+    return y
+
+
 def replay(recs):
+    out = []
+    for d in recs:
+        out += replay_one(d, False)
+        if d["r"]["seed"] == 1:
+            # the same case with the homogeneous coordinates of the elements rescaled by factors of very different magnitude
+            # (element by element; the single objects are the same rescaled representatives)
+            out += replay_one(d, True)
+    return out
+
+
+def replay_one(d, mixed):
     g = import_geometer()
     PL = pools()
     OT = optable()
     out = []
-    for d in recs:
+    for d in [d]:
         r, st = d["r"], d["s"]
         kinds, fn = OT[r["op"]]
         shapes = [tuple(s) for s in r["shapes"]]
@@ -187,6 +210,8 @@ def replay(recs):
         for a, (kind, shape) in enumerate(zip(kinds, shapes)):
             pool, mk = PL[kind]
             els = [pool[(i - 1) % len(pool)] for i in r["contents"][a]]
+            if mixed and kind in SCALABLE:
+                els = [_rescaled(x, SCALES[(k + 2 * a) % len(SCALES)]) for k, x in enumerate(els)]
             singles.append(els)
             if shape == ():
                 args.append(els[0])
@@ -198,7 +223,9 @@ def replay(recs):
                     c = type(c)(arr, **({"is_dual": c.is_dual} if hasattr(c, "is_dual") else {}))
                 args.append(c)
         case = {"op": r["op"], "shapes": r["shapes"], "contents": r["contents"]}
-        site = r['op']
+        site = r['op'] + ("/mixed-scales" if mixed else "")
+        if mixed:
+            case["scales"] = "element k of argument a is multiplied by SCALES[(k + 2a) % 6], SCALES = " + str(SCALES)
         try:
             with np.errstate(all="ignore"):
                 cres = fn(*args)
